@@ -23,7 +23,7 @@ import (
 // Letters (strings, JSON friendly):
 //   R:<acct>:<nonce>:<payload>   ReceiveTx of an eth tx         e.g. R:A:0:a
 //   RX:<k>                       ReceiveTx of a tagged admin-op tx ("zaop"…)
-//   C:<sel>                      commit: R := Reap(-1); block := selection of R
+//   C:<sel>                      commit: R := Reap(1024); block := selection of R
 //                                (E empty, X all ext, A1/A2 first 1/2 txs of
 //                                account A, B1, A1B1, ALL) in R's own order;
 //                                Execute, pool.Update(height, block), Commit —
@@ -180,6 +180,8 @@ type evmExec struct {
 	dead  bool // a panic happened inside the pool: instance unusable
 }
 
+const reapAll = 1 << 10
+
 var payloadTo = common.HexToAddress("0x00000000000000000000000000000000000c1900")
 
 func (x *evmExec) ethRaw(e ethID) []byte {
@@ -304,7 +306,12 @@ func (x *evmExec) observe() string {
 	if !ok {
 		return "dead"
 	}
-	b.WriteString("rall=" + x.canonReap(v) + ";")
+	if len(v.IDs) >= x.m.pendingLimit {
+		// cut by Reap(-1)'s own cap: which account is cut is iteration order
+		fmt.Fprintf(&b, "rall=capped/%d;", len(v.IDs))
+	} else {
+		b.WriteString("rall=" + x.canonReap(v) + ";")
+	}
 	fmt.Fprintf(&b, "size=%d;", x.sizeCheck())
 	for a := range x.accts {
 		var pn uint64
@@ -338,7 +345,10 @@ func (x *evmExec) appNonces() []uint64 {
 
 // commit = what gemmill/state/execution.go does around one block.
 func (x *evmExec) commit(sel string) string {
-	v, raws, ok := x.reap(-1)
+	// Reap with a limit above everything the pool can hold: Reap(-1) is capped
+	// at the pending limit, and which account gets cut by the cap depends on
+	// Go's map iteration order — the block content must not
+	v, raws, ok := x.reap(reapAll)
 	if !ok || len(x.res.Findings) > 0 {
 		return "cut"
 	}
@@ -676,21 +686,28 @@ func (x *evmExec) rebuild(st *evmState) bool {
 		_, raw := x.extRaw(k)
 		x.submit(raw)
 	}
+	// phase 1, all accounts: the pending runs (they pass through the shared
+	// waiting queue, so they go first, while it is empty)
 	for a := range x.accts {
 		p := st.P[a]
-		for i := len(p) - 1; i >= 1; i-- { // everything but the head goes to waiting first
+		for i := len(p) - 1; i >= 1; i-- { // everything but the head waits
 			x.submit(x.ethRaw(p[i]))
 		}
 		if len(p) > 0 {
 			x.submit(x.ethRaw(p[0])) // the head promotes the whole run
 		}
-		// lookup-only entries: a tx that lost a same-nonce race leaves such an
-		// entry; larger nonces first (they wait), the one at the state nonce last
-		// (its arrival promotes — and drops — the consecutive run)
+	}
+	// phase 2: lookup-only entries — a tx that lost a same-nonce race leaves
+	// such an entry; larger nonces first (they wait), the one at the state nonce
+	// last (its arrival promotes — and drops — the consecutive run)
+	for a := range x.accts {
 		l := st.L[a]
 		for i := len(l) - 1; i >= 0; i-- {
 			x.submit(x.ethRaw(l[i]))
 		}
+	}
+	// phase 3: the waiting queue
+	for a := range x.accts {
 		for _, e := range st.W[a] {
 			x.submit(x.ethRaw(e))
 		}
